@@ -98,6 +98,14 @@ pub struct Model {
     rank_builder: Arc<RankBuilder>,
 }
 
+#[cfg(feature = "verif")]
+impl Model {
+    /// verification hook (C13): the rank builder `Model::new` configured from `options.tiebreak`
+    pub fn verif_rank_builder(&self) -> Arc<RankBuilder> {
+        self.rank_builder.clone()
+    }
+}
+
 impl Model {
     pub fn new(rx: EventReceiver, tx: EventSender, reader: Reader, term: Arc<Term>, options: &SkimOptions) -> Self {
         let default_command = match env::var("SKIM_DEFAULT_COMMAND").as_ref().map(String::as_ref) {
